@@ -104,7 +104,8 @@ def xr_apply(st, fn, operands, sort="real", nanfn=None, bool_result=False):
             if off < 0:
                 raise Unsupported("numpy operand with more dimensions than the DataArray")
             sub = tuple(0 if (isinstance(s, int) and s == 1) else i for i, s in zip(idx[off:], o.shape))
-            return o.get(sub), False
+            nm = getattr(o, "nanmask", None)
+            return o.get(sub), (nm.get(sub) if nm is not None else False)
         if kind == "nanlit":
             return Fraction(0), True
         if isinstance(o, T.XR):
@@ -115,7 +116,8 @@ def xr_apply(st, fn, operands, sort="real", nanfn=None, bool_result=False):
         vs = [pick(k, o, idx)[0] for k, o in ops]
         return fn(*vs)
 
-    any_nan = any((k == "xa" and o.fields["nan"] is not None) or k == "nanlit" or isinstance(o, T.XR) for k, o in ops)
+    any_nan = any((k == "xa" and o.fields["nan"] is not None) or k == "nanlit" or isinstance(o, T.XR)
+                  or (k == "np" and getattr(o, "nanmask", None) is not None) for k, o in ops)
 
     def nan(idx):
         ns = [pick(k, o, idx)[1] for k, o in ops]
@@ -226,7 +228,7 @@ def xa_sum(interp, st, xa, dim, skipna=True):
     return mk_xa(st, odims, Arr(oshape, val, (), "real"), nan_out, coords, masks)
 
 
-def xa_argmax(interp, st, xa, dim):
+def xa_argmax(interp, st, xa, dim, skipna=True):
     dims = xa.fields["dims"]
     ax = dims.index(dim)
     a, nanarr = xa.fields["arr"], xa.fields["nan"]
@@ -243,9 +245,15 @@ def xa_argmax(interp, st, xa, dim):
         bv = T.Fresh.int("m")
         v = T.to_real(T.to_z3(a.get(full(idx, bv))))
         valid = T.lnot(nanarr.get(full(idx, bv))) if nanarr is not None else True
-        return T.make_argmax(0, n, bv, v, T.to_z3(valid) if not isinstance(valid, bool) else z3.BoolVal(valid))
+        am = T.make_argmax(0, n, bv, v, T.to_z3(valid) if not isinstance(valid, bool) else z3.BoolVal(valid))
+        if nanarr is not None and not skipna:
+            # numpy semantics: NaN is the maximum, the first NaN wins
+            bq = T.Fresh.int("n")
+            first_nan = T.make_first(0, n, bq, T.to_z3(nanarr.get(full(idx, bq))))
+            return T.ite(T.cmp("<", first_nan, n), first_nan, am)
+        return am
     # all-NaN slices raise in xarray; the model requires at least one valid value per slice
-    if nanarr is not None and interp.ctx is not None:
+    if nanarr is not None and skipna and interp.ctx is not None:
         ix = [T.Fresh.int("p") for _ in oshape]
         q = T.Fresh.int("q")
         rng = T.land(*[z3.And(i >= 0, i < T.to_z3(s)) for i, s in zip(ix, oshape)])
@@ -406,7 +414,8 @@ class XrPlugin:
                 return xa_sum(i, s, o, dim, True if sk is None else bool(sk))
             return method(sm)
         if name == "argmax":
-            return method(lambda i, s, a, k: xa_argmax(i, s, o, s.deref(k["dim"]) if "dim" in k else s.deref(a[0])))
+            return method(lambda i, s, a, k: xa_argmax(i, s, o, s.deref(k["dim"]) if "dim" in k else s.deref(a[0]),
+                                                       skipna=(True if k.get("skipna", True) is None else bool(s.deref(k.get("skipna", True))))))
         if name == "copy":
             return method(lambda i, s, a, k: mk_xa(s, f["dims"], f["arr"], f["nan"], f["coords"], f["masks"], f["name"]))
         if name == "drop" or name == "drop_vars":
@@ -650,3 +659,38 @@ def _patch_numpy():
 
 
 _patch_numpy()
+
+
+def _np_trapz_missing(interp, st, args, kwargs):
+    """pinned numpy (2.x) has no np.trapz: attribute access succeeds in the model, the call raises what
+    the real attribute lookup raises"""
+    from ..interp import PyRaise
+    raise PyRaise(ExcVal("AttributeError", ("module 'numpy' has no attribute 'trapz'",)))
+
+
+REG["numpy.trapz"] = LibFunc("numpy.trapz", lib._wrap("numpy.trapz (absent in numpy>=2)", _np_trapz_missing))
+
+
+def _np_trapezoid(interp, st, args, kwargs):
+    """np.trapezoid(y, x) along the last axis, for DataArray operands (lazily band-selected along that axis)"""
+    y = st.deref(args[0])
+    x = st.deref(args[1] if len(args) > 1 else kwargs.get("x"))
+    if not is_xa(y) or not is_xa(x):
+        raise Unsupported("np.trapezoid of non-DataArray operands")
+    dim = y.fields["dims"][-1]
+    if x.fields["dims"] != (dim,):
+        raise Unsupported("np.trapezoid: x is not the coordinate of the last axis of y")
+    ym, xm = y.fields["masks"].get(dim), x.fields["masks"].get(dim)
+    if ym is not xm:
+        raise Unsupported("np.trapezoid: y and x selected with different masks")
+    tmp = Obj("DataArray", {"dims": y.fields["dims"], "arr": y.fields["arr"], "nan": y.fields["nan"],
+                            "coords": {**y.fields["coords"], dim: x.fields["arr"]}, "masks": y.fields["masks"], "name": None})
+    r = st.deref(xa_integrate(interp, st, tmp, dim))
+    a = r.fields["arr"]
+    out = Arr(a.shape, a.base, a.ups, a.sort)
+    if r.fields["nan"] is not None:
+        out.nanmask = r.fields["nan"]
+    return st.alloc(out, "trapezoid")
+
+
+REG["numpy.trapezoid"] = LibFunc("numpy.trapezoid", lib._wrap("numpy.trapezoid", _np_trapezoid))
